@@ -85,4 +85,28 @@ CHECKS = {
         "note": "Real right-hand sides; Robin coefficients keep |2+gamma*dx| >= 0.1; RuntimeErrors on singular-but-compatible or ill-conditioned problems are counted, not judged; blind cases (tiny right-hand side vs the solver's absolute 1e-5 acceptance) never count as non-trivial.",
         "technique": "property-based testing with a residual oracle through an independent route and a dense reference classification (Hypothesis)",
     },
+    "C07": {
+        "text": "Generated fixed-step runs (five solvers, both backends as interpreted source + real-JIT sample; dt incl. awkward decimals; ranges of 0-200 steps built as N*dt, as decimal products or non-commensurate; 0-4 read-only trackers of several kinds with constant (real ratios incl. < 1 and x.5), fixed, logarithmic and geometric interrupts; autonomous linear/nonlinear and non-autonomous equations): metamorphic comparison with tracker=None (bit-identical for autonomous equations), step/time accounting with whole-step-ness decided in exact rational arithmetic on the generating integers, final state = steps applications of reference one-step maps, caller's initial state (data, ghost cells, dtype, label) untouched and not aliased. Exploration: held on all generated cases.",
+        "ref": "DESIGN.md section 4, C07",
+        "note": "Trusts the closed-form reference maps; ranges whose ratio is within 1e-9 of an integer without being constructed as one are judged by the any-range clause only; |t_start| <= 1e5*dt.",
+        "technique": "metamorphic and reference-model property-based testing (Hypothesis) with exact rational schedule arithmetic",
+    },
+    "C08": {
+        "text": "Generated runs as in C07 with recording trackers (call times, state copies, finalize calls) and injected stop events (StopIteration / FinishedSimulation at chosen occurrences, coincident trackers, stops at t_start/t_end, main loop vs final handling): per tracker strictly increasing genuine simulation times with the reference state, once-per-schedule clause for constant intervals >= dt within dt/2 (adaptive steppers: at the scheduled time), storage frame counts floor(T/D)+1 in rationals, stop handling (all due trackers served, run ends at that time with that state, stop reason, successful flag, every tracker finalised), adaptive steppers with distinct schedules. Exploration: held on all generated cases.",
+        "ref": "DESIGN.md section 4, C08",
+        "note": "'Due' follows the controller's own tolerances (dt/2 in the main loop, termination tolerance in the final handling); the once-per-schedule clause is judged for constant intervals >= dt only (as stated); one extra call may fall on the last step before t_end when the next scheduled time lies within dt/2 (documented half-step firing).",
+        "technique": "property-based testing of history invariants with fault (stop) injection (Hypothesis)",
+    },
+    "C16": {
+        "text": "Generated grids (1-3 axes, all classes, periodic mixes), fields of rank 0-2 (random, affine, constant; real/complex), points (centres, faces, corners, boundary strips, periodic seams and whole-period shifts, inside, clearly outside, batches), fill values and boundary conditions are interpolated and compared with an independent multilinear interpolant (own ghost-cell semantics with propagated uncertainty), plus the stated consequences (centre values, affine exactness, range, period-shift invariance, DomainError/fill outside, linear approach to the boundary value); interpolate_to_grid; insertion increases the integral by exactly the amount on every grid class (exact cell volumes), touches only the 2^d neighbours, compiled == interpreted (interpreted-source breadth + real-JIT samples). Exploration: held on all generated cases.",
+        "ref": "DESIGN.md section 4, C16",
+        "note": "Points within the position resolution eps*(|x|+|lo|)/dx of domain boundaries or strip/bulk switches are excluded; interpolation BCs without time dependence/normal/anti-periodic kinds; known finding C16:vector-to-cartesian:fill-value-rotated excluded by construction and confirmed by a dedicated sub-check.",
+        "technique": "property-based testing against an independent reference interpolant plus consequence predicates (Hypothesis)",
+    },
+    "C19": {
+        "text": "Generated points and curvilinear grids: bases of all coordinate systems are orthonormal, right-handed and equal to the normalised Jacobian columns (finite-difference Jacobian too); one component order per grid: by-name/by-index access returns the component the operators differentiate (single-component probes against continuum formulas), from_expression order, dot/outer products; conversion of vector fields to Cartesian grids is compared point-wise with an exact reference and must commute with divergence/gradient (threshold 0.15); uniform axial and radial fields. The cylindrical conversion call site is judged by a three-way comparison (correct / characterised wrong / other). Exploration: held on all generated cases.",
+        "ref": "DESIGN.md section 4, C19",
+        "note": "Known finding C19:cylindrical-vector-to-cartesian:order(r,phi,z) (pinned by an existing test) is reported as KNOWN-FINDING while it reproduces; any other deviation at that call site is a violation; conversion fill values restricted to nan/0.",
+        "technique": "property-based testing with textbook references and metamorphic single-component probes (Hypothesis)",
+    },
 }
